@@ -12,8 +12,9 @@ itself proved from primitive roots of unity (`dft_contract_from_roots`).  The pi
 speak about (`Generated.C15.conv`, `applyTF`, `transformPsf`, `mtf`, `ptf`, `otf`) are regenerated from
 the current source on every run.
 
-Every theorem holds for every finite abelian `G` (every shape, every parity, any number of axes),
-every field of scalars `K` and every real subring `R ↪ K`; the MTF laws are over `ℝ ⊂ ℂ`.
+Every theorem holds for every finite abelian `G`, every field of scalars `K` and every real subring `R ↪ K`; the
+MTF laws are over `ℝ ⊂ ℂ`.  The source is 2-D (`fft2`, `fftshift` over both axes of an `(M, N)` array): the instance
+that describes prysm is `G = ZMod m × ZMod n` (every `m, n ≥ 1`, every parity); stacks of images are not covered.
 -/
 set_option linter.unusedTactic false
 set_option linter.unreachableTactic false
@@ -36,7 +37,7 @@ variable (E : Kernel G K) (c : G) (re absf argf : K → K)
 /-- closes `generated pipeline = model pipeline` after unfolding both -/
 local macro "pipe" : tactic =>
   `(tactic| (simp only [Generated.C15.conv, Generated.C15.tfPre, Generated.C15.tfStep, Generated.C15.tfPost,
-      Generated.C15.applyTF, Generated.C15.transformPsf, Generated.C15.mtf, Generated.C15.ptf, Generated.C15.otf,
+      Generated.C15.applyTF, Generated.C15.transformPsf, Generated.C15.transformPsfOfContainer, Generated.C15.mtf, Generated.C15.ptf, Generated.C15.otf,
       Model.C15.conv, Model.C15.tfPre, Model.C15.tfStep, Model.C15.tfPost, Model.C15.applyTF, Model.C15.transformPsf,
       Model.C15.mtf, Model.C15.ptf, Model.C15.otf, mathOps, if_true, if_false, Bool.false_eq_true] <;>
     first | rfl | (simp only [mul_comm]; done) | (funext g; simp only [Pi.mul_apply, shiftBy, mul_comm]; done)))
@@ -63,13 +64,16 @@ theorem gen_applyTF (shift : Bool) (o : G → K) (tfs : List (G → K)) :
       | (simp only [Generated.C15.applyTF, Generated.C15.tfPost, Generated.C15.tfStep, Generated.C15.tfPre, Model.C15.applyTF])
   rw [hdef, hpre, hfold, hpost]; rfl
 
-/-- `transform_psf` and the three normalisations of `otf.py` -/
+/-- `transform_psf`, and the MTF / OTF normalisations of `otf.py` (the PTF: `gen_ptf` below) -/
 theorem gen_otf (psf : G → K) (c' : G) :
     transformPsf (mathOps E c re absf argf) psf = Model.C15.transformPsf (mathOps E c re absf argf) psf ∧
     mtf (mathOps E c re absf argf) psf c' = Model.C15.mtf (mathOps E c re absf argf) psf c' ∧
-    ptf (mathOps E c re absf argf) psf c' = Model.C15.ptf (mathOps E c re absf argf) psf c' ∧
     otf (mathOps E c re absf argf) psf c' = Model.C15.otf (mathOps E c re absf argf) psf c' := by
-  refine ⟨?_, ?_, ?_, ?_⟩ <;> pipe
+  refine ⟨?_, ?_, ?_⟩ <;> pipe
+
+/-- a container (RichData, any object with `.data` / `.dx`) goes through the same transform as its `.data` array -/
+theorem gen_otf_container (psf : G → K) :
+    transformPsfOfContainer (mathOps E c re absf argf) psf = transformPsf (mathOps E c re absf argf) psf := by pipe
 
 end gen
 
@@ -77,12 +81,18 @@ end gen
 theorem gen_centre (s : Int) : mtfCentre s = s / 2 := by
   simp only [mtfCentre, Model.C15.mtfCentre]
 
-/-- structure of the frequency grids handed to callables: `forward_ft_unit` per axis in (y, x) order,
-origin where the chosen convention puts it, polar grids derived from the Cartesian ones, each
-keyword fed by the grid of the same name -/
+/-- the frequency grids built for callables (`forward_ft_unit`, translated from `fttools.py`, and its call site in
+`apply_transfer_functions`): `fy` from the length of axis 0, `fx` from the length of axis 1, numerators
+`fftfreq` rotated by `fftshift` exactly when the convention is the shifted one -/
+theorem gen_grid (m n : ℕ) (shift : Bool) (i : ℕ) :
+    tfGridY m n shift i = Model.C15.ftUnitNum m shift i ∧ tfGridX m n shift i = Model.C15.ftUnitNum n shift i := by
+  cases shift <;> simp [tfGridY, tfGridX, Generated.C15.ftUnitNum, Model.C15.ftUnitNum]
+
+/-- RECOGNISER FACTS (values written by the translator's pattern matcher; no Lean content beyond the comparison):
+polar grids are `cart_to_polar(fx, fy)` of the separable Cartesian grids, and each keyword `fx, fy, fr, ft` of a
+callable is fed by the grid of the same name -/
 theorem gen_structure :
-    tfGridIsFtUnitPerAxisYX = true ∧ tfGridOriginFollowsConvention = true ∧ tfPolarGridFromCartesian = true ∧
-    tfKwargs = [("fr", "fr"), ("ft", "ft"), ("fx", "fx"), ("fy", "fy")] := by decide
+    tfPolarGridFromCartesian = true ∧ tfKwargs = [("fr", "fr"), ("ft", "ft"), ("fx", "fx"), ("fy", "fy")] := by decide
 
 /-- the analytic transfer functions are the modelled formulas (over any field, up to ring identities) -/
 theorem gen_tfs {K : Type} [Field K] (f : K → K) (pi fx fy a b : K) (u v : Bool) :
@@ -184,10 +194,9 @@ theorem tf_conventions_agree_list (o : G → K) (tfs : List (G → K)) :
     applyTF P true o (tfs.map (shiftBy c)) = applyTF P false o tfs := by
   rw [gen_applyTF, gen_applyTF]; exact applyTF_shifted_eq_unshifted_list E c re absf argf o tfs
 
-/-- callables: a transfer function given as a function `φ` of the frequency coordinate gives the same image in
-both conventions, PROVIDED the grid handed to it has its origin where the convention puts it (`ν` with
-origin at `[0,0]` when unshifted, `fftshift ν` when shifted — the generated fact
-`tfGridOriginFollowsConvention`) -/
+/-- abstract form of the callable clause (used by `tf_callables_on_generated_grids`, which instantiates `ν` with the
+grids the source builds): transfer functions given as functions `φ` of a frequency coordinate `ν` give the same
+image in both conventions when the shifted convention is handed `fftshift ν` -/
 theorem tf_callables_agree {F : Type} (o : G → K) (ν : G → F) (φs : List (F → K)) :
     applyTF P true o (φs.map fun φ => fun k => φ (shiftBy c ν k))
       = applyTF P false o (φs.map fun φ => fun k => φ (ν k)) := by
@@ -199,10 +208,19 @@ theorem tf_of_transformPsf_is_conv (hre : ∀ r, re (ι r) = ι r) (o h : G → 
   rw [gen_applyTF, gen_conv, (gen_otf E c re absf argf _ c).1, conv_mathOps E c re absf argf ι hre]
   exact applyTF_transformPsf E c re absf argf ι hre o h
 
-/-- energy: the inverse transform sums to the DC sample, so a transfer function with `T 0 = 1`
-(unshifted; `T c = 1` shifted) preserves the total of the object -/
-theorem tf_total (o T : G → K) : ∑ p, ifft E (fft E o * T) p = (∑ q, o q) * T 0 := by
-  rw [sum_ifft, Pi.mul_apply, fft_zero]
+/-- energy: the total of the image is the total of the object times the DC sample of the transfer function
+(`T 0` unshifted, `T c` shifted), for an additive `.real`; so a transfer function with unit DC gain preserves the total -/
+theorem tf_total (hadd : ∀ (s : Finset G) (f : G → K), re (∑ p ∈ s, f p) = ∑ p ∈ s, re (f p)) (o T : G → K) :
+    ∑ p, applyTF P false o [T] p = re ((∑ q, o q) * T 0) ∧
+    ∑ p, applyTF P true o [shiftBy c T] p = re ((∑ q, o q) * shiftBy c T c) := by
+  have h0 : ∑ p, applyTF P false o [T] p = re ((∑ q, o q) * T 0) := by
+    rw [gen_applyTF]
+    simp only [Model.C15.applyTF, Model.C15.tfPost, Model.C15.tfPre, Model.C15.tfStep, List.foldl_cons, List.foldl_nil,
+      mathOps, Bool.false_eq_true, if_false]
+    rw [← hadd, sum_ifft, Pi.mul_apply, fft_zero]
+  refine ⟨h0, ?_⟩
+  rw [tf_conventions_agree, h0]
+  simp only [shiftBy, sub_self]
 
 end general
 
@@ -237,18 +255,45 @@ theorem tf_grid_unshifted_eq_model (m n : ℕ) [NeZero m] [NeZero n] {K : Type} 
       = re (Model.C15.cconv2 m n o g p q) := by
   rw [tf_unshifted_is_cconv, ifft_fft, cconv2_eq]; rfl
 
-/-- the frequency grids of the model: zero frequency at `n // 2` when shifted, at index 0 when not, and the
-shifted grid is the `fftshift` of the unshifted one -/
-theorem freq_grid_origin (n i : ℕ) (hn : 0 < n) :
-    Model.C15.ftUnitNum n true (n / 2) = 0 ∧ Model.C15.ftUnitNum n false 0 = 0 ∧
-    Model.C15.ftUnitNum n true i = Model.C15.ftUnitNum n false (Model.C15.fftshiftSrc n i) := by
-  refine ⟨?_, ?_, rfl⟩
-  · have h0 : (n / 2 + (n - n / 2)) % n = 0 := by
-      rw [Nat.add_sub_cancel' (Nat.div_le_self n 2), Nat.mod_self]
-    have h1 : (0 : ℕ) < (n + 1) / 2 := by omega
-    simp only [Model.C15.ftUnitNum, Model.C15.fftfreqNum, Model.C15.fftshiftSrc, if_true, h0, h1, Nat.cast_zero]
-  · have h1 : (0 : ℕ) < (n + 1) / 2 := by omega
-    simp [Model.C15.ftUnitNum, Model.C15.fftfreqNum, h1]
+/-- the generated frequency grids have their zero at `shape // 2` in the shifted convention and at index 0 in the
+unshifted one (both axes) -/
+theorem freq_grid_origin (m n : ℕ) (hm : 0 < m) (hn : 0 < n) :
+    tfGridY m n true (m / 2) = 0 ∧ tfGridX m n true (n / 2) = 0 ∧ tfGridY m n false 0 = 0 ∧ tfGridX m n false 0 = 0 := by
+  have key : ∀ k : ℕ, 0 < k → Model.C15.ftUnitNum k true (k / 2) = 0 ∧ Model.C15.ftUnitNum k false 0 = 0 := by
+    intro k hk
+    have h0 : (k / 2 + (k - k / 2)) % k = 0 := by
+      rw [Nat.add_sub_cancel' (Nat.div_le_self k 2), Nat.mod_self]
+    have h1 : (0 : ℕ) < (k + 1) / 2 := by omega
+    constructor
+    · simp only [Model.C15.ftUnitNum, Model.C15.fftfreqNum, Model.C15.fftshiftSrc, if_true, h0, h1, Nat.cast_zero]
+    · simp [Model.C15.ftUnitNum, Model.C15.fftfreqNum, h1]
+  simp only [(gen_grid m n _ _).1, (gen_grid m n _ _).2]
+  exact ⟨(key m hm).1, (key n hn).1, (key m hm).2, (key n hn).2⟩
+
+/-- frequency coordinates (numerators `(n·dx·fx, m·dx·fy)`) of sample `k` on the grids the source builds -/
+def genGrid (m n : ℕ) [NeZero m] [NeZero n] (shift : Bool) : ZMod m × ZMod n → ℤ × ℤ :=
+  fun k => (tfGridX m n shift k.2.val, tfGridY m n shift k.1.val)
+
+/-- the grids built in the shifted convention are the `fftshift` of those built in the unshifted one -/
+theorem genGrid_shift (m n : ℕ) [NeZero m] [NeZero n] :
+    genGrid m n true = shiftBy (centre m n) (genGrid m n false) := by
+  have h : genGrid m n false = lift m n (fun j i => (Model.C15.ftUnitNum n false i, Model.C15.ftUnitNum m false j)) := by
+    funext k; simp only [genGrid, lift, (gen_grid m n _ _).1, (gen_grid m n _ _).2]
+  rw [h, lift_fftshift]
+  funext k
+  simp only [genGrid, lift, (gen_grid m n _ _).1, (gen_grid m n _ _).2]
+  rfl
+
+/-- **callables of fx, fy, fr, ft**: a list of transfer functions given as arbitrary functions `φ` of the frequency
+coordinates (hence of `fr = hypot(fx, fy)`, `ft = atan2(fy, fx)` and of `dx`), evaluated on the grids that
+`apply_transfer_functions` builds, gives the same image in the shifted and in the unshifted convention — for every
+shape `m × n` and every DFT kernel -/
+theorem tf_callables_on_generated_grids (m n : ℕ) [NeZero m] [NeZero n] {K : Type} [Field K]
+    (E : Kernel (ZMod m × ZMod n) K) (re absf argf : K → K) (o : ZMod m × ZMod n → K) (φs : List (ℤ × ℤ → K)) :
+    applyTF (mathOps E (centre m n) re absf argf) true o (φs.map fun φ => fun k => φ (genGrid m n true k))
+      = applyTF (mathOps E (centre m n) re absf argf) false o (φs.map fun φ => fun k => φ (genGrid m n false k)) := by
+  rw [genGrid_shift]
+  exact tf_callables_agree E (centre m n) re absf argf o (genGrid m n false) φs
 
 /-- `fftshift` / `ifftshift` of the model (index maps `(i ± n//2) mod n`) are the rotations by `± centre` -/
 theorem rolls_grid_eq_model (m n : ℕ) [NeZero m] [NeZero n] {A : Type} (f : ℕ → ℕ → A) :
@@ -287,8 +332,20 @@ local notation "Q" => cOps E c
 /-- the generated `otf.py` pipelines under the operations of `ℂ` -/
 theorem gen_otf_c (psf : G → ℂ) (c' : G) :
     transformPsf (cOps E c) psf = Model.C15.transformPsf (cOps E c) psf ∧ mtf (cOps E c) psf c' = Model.C15.mtf (cOps E c) psf c' ∧
-    ptf (cOps E c) psf c' = Model.C15.ptf (cOps E c) psf c' ∧ otf (cOps E c) psf c' = Model.C15.otf (cOps E c) psf c' := by
+    otf (cOps E c) psf c' = Model.C15.otf (cOps E c) psf c' := by
   unfold cOps; exact gen_otf E c _ _ _ psf c'
+
+/-- the generated PTF of a non-negative PSF is `arg (data / data[c])` — also when the source takes the angle without
+normalising first (the reference sample is the positive total of the PSF, which does not change the argument) -/
+theorem gen_ptf (p : G → ℝ) (hp : ∀ a, 0 ≤ p a) (hs : ∑ a, p a ≠ 0) (k : G) :
+    ptf Q (embR p) c k = Model.C15.ptf Q (embR p) c k := by
+  have hS : 0 < ∑ a, p a := lt_of_le_of_ne (Finset.sum_nonneg fun a _ => hp a) (Ne.symm hs)
+  have hc := transformPsf_centre E c p
+  simp only [Generated.C15.ptf, Model.C15.ptf, (gen_otf_c E c _ c).1] <;>
+  first
+    | rfl
+    | (simp only [cOps, mathOps] at hc ⊢
+       rw [hc, div_eq_mul_inv, ← Complex.ofReal_inv, Complex.arg_mul_real (inv_pos.mpr hS)])
 
 /-- MTF is 1 at zero frequency (the reference sample) for every PSF with non-zero total -/
 theorem mtf_dc_one (p : G → ℝ) (hs : ∑ a, p a ≠ 0) : mtf Q (embR p) c c = 1 := by
@@ -304,26 +361,26 @@ for every offset `d` (indices modulo the shape) -/
 theorem mtf_point_symmetric (p : G → ℝ) (d : G) : mtf Q (embR p) c (c + d) = mtf Q (embR p) c (c - d) := by
   rw [(gen_otf_c E c _ c).2.1]; exact mtf_symm E c p d
 
-/-- `OTF = MTF · exp(i · PTF)` at every sample -/
-theorem otf_mtf_ptf (p : G → ℝ) (k : G) :
+/-- `OTF = MTF · exp(i · PTF)` at every sample, for every non-negative PSF -/
+theorem otf_mtf_ptf (p : G → ℝ) (hp : ∀ a, 0 ≤ p a) (hs : ∑ a, p a ≠ 0) (k : G) :
     otf Q (embR p) c k = mtf Q (embR p) c k * Complex.exp (ptf Q (embR p) c k * Complex.I) := by
-  rw [(gen_otf_c E c _ c).2.1, (gen_otf_c E c _ c).2.2.1, (gen_otf_c E c _ c).2.2.2]; exact otf_eq_mtf_mul_exp_ptf E c p k
+  rw [(gen_otf_c E c _ c).2.1, gen_ptf E c p hp hs, (gen_otf_c E c _ c).2.2]; exact otf_eq_mtf_mul_exp_ptf E c p k
 
 /-- `MTF = |OTF|` at every sample -/
 theorem mtf_is_abs_otf (p : G → ℝ) (k : G) : mtf Q (embR p) c k = ((‖otf Q (embR p) c k‖ : ℝ) : ℂ) := by
-  rw [(gen_otf_c E c _ c).2.1, (gen_otf_c E c _ c).2.2.2]; exact mtf_eq_norm_otf E c p k
+  rw [(gen_otf_c E c _ c).2.1, (gen_otf_c E c _ c).2.2]; exact mtf_eq_norm_otf E c p k
 
-/-- `PTF = arg OTF` at every sample, and the OTF is 1 (so the PTF is 0) at zero frequency -/
-theorem ptf_is_arg_otf (p : G → ℝ) (k : G) (hs : ∑ a, p a ≠ 0) :
+/-- `PTF = arg OTF` at every sample, and the OTF is 1 (so the PTF is 0) at zero frequency, for every non-negative PSF -/
+theorem ptf_is_arg_otf (p : G → ℝ) (hp : ∀ a, 0 ≤ p a) (hs : ∑ a, p a ≠ 0) (k : G) :
     ptf Q (embR p) c k = ((Complex.arg (otf Q (embR p) c k) : ℝ) : ℂ) ∧ otf Q (embR p) c c = 1 ∧ ptf Q (embR p) c c = 0 := by
-  rw [(gen_otf_c E c _ c).2.2.1, (gen_otf_c E c _ c).2.2.2]
+  rw [gen_ptf E c p hp hs, gen_ptf E c p hp hs, (gen_otf_c E c _ c).2.2]
   refine ⟨ptf_apply E c p k, otf_dc E c p hs, ?_⟩
   rw [ptf_apply, otf_dc E c p hs]; simp
 
 /-- the OTF of a real PSF is Hermitian about the zero-frequency sample -/
 theorem otf_hermitian (p : G → ℝ) (d : G) :
     otf Q (embR p) c (c - d) = (starRingEnd ℂ) (otf Q (embR p) c (c + d)) := by
-  rw [(gen_otf_c E c _ c).2.2.2]; exact otf_symm E c p d
+  rw [(gen_otf_c E c _ c).2.2]; exact otf_symm E c p d
 
 end mtf
 
